@@ -367,7 +367,14 @@ func (index *PatternIndex) searchPairs(ctx *Context, pairs []piPair) (StringSet,
 	Log(DEBUG, ctx, "PatternIndex.searchPairs", "default_input", pairs)
 
 	if len(pairs) == 0 {
-		return make(StringSet), nil
+		// Patterns that end at this node (the empty pattern at the
+		// root, an empty map or an empty array as a value) need
+		// nothing more from the input, so they are candidates.
+		ids := make(StringSet)
+		if index.Ids != nil {
+			ids.AddAll(index.Ids)
+		}
+		return ids, nil
 	}
 
 	pair := pairs[0]
